@@ -45,6 +45,16 @@ Theorem C03_datagram_total :
 Proof. exact parse_datagram_total. Qed.
 Print Assumptions C03_datagram_total.
 
+(* Processing of later input continues: a sequence of datagrams (each an arbitrary byte string)
+   is processed to its end, and the accumulated counters account for every line of every
+   datagram ([total_lines] = sum over the datagrams of newlines + non-empty remainders). *)
+Theorem C03_later_datagrams_processed :
+  forall (pf : str -> pfres) (ns : str) (msgs : list str),
+  exists m e b,
+    parse_stream pf ns msgs 0 0 0 = DCounts m e b /\ m + e + b = total_lines msgs.
+Proof. exact parse_stream_total0. Qed.
+Print Assumptions C03_later_datagrams_processed.
+
 (* The pre-fix lexer (length test in uint32, /repo before commit 409dd76) is refuted: there is
    a line — `_e{5,4294967290}:abcde|xyz` — on which it panics, both in the frozen model's
    legacy variant and in the position-exact uint32 model, and which the current lexer rejects. *)
